@@ -1148,6 +1148,7 @@ def regex_group_value(ctx, pat, key, s, g):
     if kind == 'digits':
         ctx.assume(ufun('int_literal_valid', PyStr, z3.IntSort(), z3.BoolSort())(gt, I(10)))
         ctx.assume(ufun('int_of_str', PyStr, z3.IntSort(), z3.IntSort())(gt, I(10)) >= 0)
+        ctx.assume(ufun('strip_ws', PyStr, PyStr)(gt) == gt)       # digits only: nothing to strip
     return mkstr([Opq(gt)])
 
 
